@@ -20,6 +20,14 @@ Exp(ev) ==
             [calls |-> IF d.called THEN 1 ELSE 0, name |-> d.name, argc |-> d.argc,
              argvs |-> IF d.called THEN [k \in 1..r.argc |-> Token(s, r.starts[k])] ELSE <<>>,
              hret |-> IF d.called THEN 7 ELSE -99]
+     \* the handler of the outer line dispatches line a through the same shell and then reads its own arguments again
+     [] ev.fn \in {"mshell_nested", "mshell_tables_nested", "rshell_nested", "rshell_tables_nested"} ->
+            LET d == Dispatch(s, Names, 10)  r == ArgvSplit(s, 10)
+                d2 == Dispatch(a, Names, 10)  r2 == ArgvSplit(a, 10)
+                toks == [k \in 1..r.argc |-> Token(s, r.starts[k])] IN
+            IF ~d.called THEN [calls |-> 0, name |-> <<>>, argvs |-> <<>>, argvs_after |-> <<>>, in_name |-> <<>>, in_argvs |-> <<>>, hret |-> -99]
+            ELSE [calls |-> IF d2.called THEN 2 ELSE 1, name |-> d.name, argvs |-> toks, argvs_after |-> toks,
+                  in_name |-> d2.name, in_argvs |-> IF d2.called THEN [k \in 1..r2.argc |-> Token(a, r2.starts[k])] ELSE <<>>, hret |-> 7]
      [] ev.fn = "path_next" -> LET r == PathNext(s) IN [off |-> r.off, len |-> r.len]
      [] ev.fn = "path_iterate" -> [off |-> PathIterate(s)]
      [] ev.fn = "compare_node" -> [ret |-> CompareNode(s, a)]
